@@ -195,6 +195,9 @@ struct XReq {
     unsigned bufSize = 512, tblock = 1024;         // writer form
     bool wantCanon = false;
     std::string ssSysId;                           // system id of the stylesheet for the stream / InputSource forms (default SIM_BASE + "ss.xsl")
+    std::string docSysId;                          // system id of the source as the caller writes it, for the forms where the library derives the document URL from it
+                                                   // (stream, inputsource, parsed, parsed-xerces); default SIM_BASE + "doc.xml".
+    std::string docUrl;                            // the URL handed to the forms that take the document URL from the caller (wrapper, stwrapper, builder); default SIM_BASE + "doc.xml"
 };
 
 // exceptions the driver may see escaping a call
@@ -270,13 +273,13 @@ struct SourceHolder {
 };
 
 // build a pre-parsed source in the requested form; returns false (holder.status != 0) when parsing failed
-inline bool makeSource(XEnv& env, const std::string& form, const std::string& docBytes, const SrcFault& f, SourceHolder& h) {
+inline bool makeSource(XEnv& env, const std::string& form, const std::string& docBytes, const SrcFault& f, SourceHolder& h, const std::string& callerSysId = std::string(), const std::string& callerUrl = std::string()) {
     xercesc::MemoryManager& mm = env.manager();
     const std::string seen = applySrcFault(docBytes, f);
-    const std::string sysId = std::string(SIM_BASE) + "doc.xml";
+    const std::string sysId = callerUrl.empty() ? std::string(SIM_BASE) + "doc.xml" : callerUrl;
     try {
         if (form == "parsed" || form == "parsed-xerces") {
-            SimIStream is(seen, f, &env.fs.stats); XSLTInputSource in(&is, mm); in.setSystemId(xs(sysId, mm).c_str());
+            SimIStream is(seen, f, &env.fs.stats); XSLTInputSource in(&is, mm); in.setSystemId(xs(callerSysId.empty() ? sysId : callerSysId, mm).c_str());
             h.status = env.T->parseSource(in, h.ps, form == "parsed-xerces"); h.owner = env.T.get(); h.ownedByTransformer = true;
             if (h.status != 0) { h.err = env.T->getLastError(); h.ps = nullptr; h.owner = nullptr; }
         } else if (form == "wrapper") {
@@ -333,14 +336,14 @@ inline XformOut runTransform(XEnv& env, const XReq& rq, SimSink& sink, const Xal
     bool preparsed = rq.srcForm != "stream" && rq.srcForm != "inputsource" && rq.srcForm != "file";
     try {
         if (preparsed && !ps) {
-            if (!makeSource(env, rq.srcForm, rq.doc, rq.docFault, holder)) { out.status = holder.status ? holder.status : -1; out.err = holder.err; out.errEmpty = out.err.empty(); out.threw = holder.threw; out.exc = holder.exc; return out; }
+            if (!makeSource(env, rq.srcForm, rq.doc, rq.docFault, holder, rq.docSysId, rq.docUrl)) { out.status = holder.status ? holder.status : -1; out.err = holder.err; out.errEmpty = out.err.empty(); out.threw = holder.threw; out.exc = holder.exc; return out; }
             ps = holder.ps;
         }
         if (!preparsed) {
-            if (rq.srcForm == "stream") { dstream.reset(new SimIStream(docSeen, rq.docFault, &env.fs.stats)); din.reset(new XSLTInputSource(dstream.get(), mm)); din->setSystemId(xs(docId, mm).c_str()); }
+            if (rq.srcForm == "stream") { dstream.reset(new SimIStream(docSeen, rq.docFault, &env.fs.stats)); din.reset(new XSLTInputSource(dstream.get(), mm)); din->setSystemId(xs(rq.docSysId.empty() ? docId : rq.docSysId, mm).c_str()); }
             else if (rq.srcForm == "file") { std::string p = writeScratch(env, "doc.xml", docSeen); din.reset(new XSLTInputSource(p.c_str(), mm));
                 if (rq.ssForm == "pi") { writeScratch(env, "ss.xsl", xslSeen); for (auto& kv : env.fs.files) if (kv.first != "ss.xsl" && kv.first != "doc.xml") writeScratch(env, kv.first, kv.second); } }
-            else { dsrc.reset(new SimInputSource(docSeen, rq.docFault, docId, &env.fs.stats)); }
+            else { dsrc.reset(new SimInputSource(docSeen, rq.docFault, rq.docSysId.empty() ? docId : rq.docSysId, &env.fs.stats)); }
         }
         bool haveSS = true;
         if (rq.ssForm == "stream") { sstream.reset(new SimIStream(xslSeen, rq.xslFault, &env.fs.stats)); sin.reset(new XSLTInputSource(sstream.get(), mm)); sin->setSystemId(xs(ssId, mm).c_str()); }
